@@ -88,7 +88,9 @@ BpkiOk(r) ==
          IF r.iter < 10000 \/ ~KeyLensOk(r.kind, Len(r.key)) \/ (r.kind = "share" /\ ~(r.key[1] \in 1..16)) THEN r.rc # "OK"
          ELSE r.rc = "OK" /\ r.epki = EpkiEnc(KWPWrap(PkiEnc(r.kind, r.key), Zeros(16), ProtKey(r)), r.salt, r.iter)
     [] r.op = "bpkiU" ->
-         IF r.cls = "altered" THEN r.rc # "OK" /\ r.out = <<>>                  \* an altered container never opens
+         \* a container that differs from the one produced (DER skeleton, salt, iteration count, ciphertext; or its length)
+         \* never opens: not ERR_OK, no key.  (No PBKDF2 needs to be recomputed for this rule.)
+         IF r.cls = "altered" THEN r.epki # r.orig /\ r.rc # "OK" /\ r.out = <<>>
          ELSE LET u == KWPUnwrap(EpkiEdata(r.epki), Zeros(16), r.dk) IN       \* the right key iff the right password
               /\ (r.rc = "OK") = u[1]
               /\ (r.rc = "OK" => (r.out = r.key /\ u[2] = PkiEnc(r.kind, r.key)))
